@@ -29,6 +29,12 @@ func (p *P0x8800) ReplyProtocol() consts.JT808CommandType {
 
 func (p *P0x8800) Parse(jtMsg *jt808.JTMessage) error {
 	body := jtMsg.Body
+	if len(body) == 4 {
+		// 没有重传包的情况 只有多媒体ID (Encode在重传列表为空时也是这个格式)
+		p.MultimediaID = binary.BigEndian.Uint32(body[0:4])
+		p.AgainPackageCount = 0
+		return nil
+	}
 	if len(body) < 5 {
 		return protocol.ErrBodyLengthInconsistency
 	}
